@@ -15,6 +15,11 @@ from ..steps import c_assigned, c_mentions, path_conditions
 PAGE_WORDS = 1 << 14
 
 
+# the quantities the accepted idioms are phrased in: read-through stops at these names
+RD_KEEP = {'start', 'end', 'end_clamped', 'lo', 'hi', 'page_start', 'page_end', 'low_max_end', 'max_end', 'new_capacity', 'new_count', 'i', 'seg', 'limit',
+           'word_address', 'bit_address', 'count', 'n'}
+
+
 class Fn:
     """per-function facts: CFG, must-path-conditions, local definitions."""
 
@@ -38,6 +43,36 @@ class Fn:
                 if l0.get('kind') == 'DeclRefExpr':
                     self.defs.setdefault(l0['referencedDecl']['name'], []).append(n['inner'][1])
         self.env = Env({})
+
+    def rd(self, node: Dict[str, Any], depth: int = 0) -> lx.IR:
+        """the expression as IR with locals that merely name a value read through: a local with exactly one definition (declaration
+        initialiser or a single assignment) that is never modified otherwise (`uint64_t* dst = m->flat + lo;`, `size_t bytes = n *
+        sizeof(T);`) reads as that value. casts are already dropped by c_ir; sizeof reads as the type it measures."""
+        modified = getattr(self, '_modified', None)
+        if modified is None:
+            modified = set()
+            for n in walk(self.cu.body(self.name)):
+                if n.get('kind') in ('CompoundAssignOperator',) or (n.get('kind') == 'UnaryOperator' and n.get('opcode') in ('++', '--', '&')):
+                    l0 = strip(n['inner'][0])
+                    if l0.get('kind') == 'DeclRefExpr':
+                        modified.add(l0['referencedDecl']['name'])
+            self._modified = modified
+        bind: Dict[str, lx.IR] = {}
+        params = set(self.cu.params(self.name))
+        for nm, ds in self.defs.items():
+            if len(ds) == 1 and nm not in modified and nm not in params and nm not in RD_KEEP and depth < 4:
+                bind[nm] = ds[0]            # type: ignore[assignment]
+        ir = c_ir(node, self.cu.src_of)
+
+        def subst(e: Any, d: int) -> Any:
+            if isinstance(e, tuple):
+                if e and e[0] == 'sym' and e[1] in bind and d < 4:
+                    return subst(c_ir(bind[e[1]], self.cu.src_of), d + 1)       # type: ignore[arg-type]
+                return tuple(subst(x, d) for x in e)
+            if isinstance(e, list):
+                return [subst(x, d) for x in e]
+            return e
+        return subst(ir, 0)
 
     def facts(self, sub: Dict[str, Any]) -> List[Tuple[lx.IR, str, str]]:
         nid = self.node_of.get(id(sub))
@@ -369,7 +404,10 @@ def _append_after_capacity(cu: CUnit, fn: Fn) -> bool:
             txts = [cu.src_of(x) for x in walk(then) if is_assign(x)]
             decl = [cu.src_of(d) for x in walk(then) if x.get('kind') == 'VarDecl' and x.get('name') == 'new_capacity'
                     for d in x.get('inner', []) if isinstance(d, dict) and d.get('kind')]
-            return 'self->segment_capacity = new_capacity' in txts and 'self->segments = new_segments' in txts and \
+            # the grown block reaches self->segments through the local that received realloc(self->segments, ..)
+            grown = {x['name'] for x in walk(then) if x.get('kind') == 'VarDecl' and any(
+                c.get('kind') == 'CallExpr' and callee(c) == 'realloc' and cu.src_of(call_args(c)[0]) == 'self->segments' for c in walk(x))}
+            return 'self->segment_capacity = new_capacity' in txts and any(f'self->segments = {g_}' in txts for g_ in grown) and \
                 decl == ['self->segment_capacity ? self->segment_capacity * 2 : 8']
     return False
 
@@ -378,6 +416,9 @@ def _judge_deref(rep: Report, cu: CUnit, fn: Fn, sub: Dict[str, Any], outparams:
     p = strip(sub['inner'][0])
     site = cu.site(sub, fn.name)
     construct = f'{fn.name}:{cu.src_of(sub)}'
+    if p.get('kind') == 'UnaryOperator' and p.get('opcode') == '&' and strip(p['inner'][0]).get('kind') in ('MemberExpr', 'DeclRefExpr', 'ArraySubscriptExpr'):
+        rep.ok('C11.BOUNDS', construct, 'dereference of the address of an lvalue: the lvalue itself (its own subscript is judged as such)', site)
+        return
     if p.get('kind') == 'DeclRefExpr':
         name = p['referencedDecl']['name']
         if name in cu.params(fn.name):
@@ -387,8 +428,9 @@ def _judge_deref(rep: Report, cu: CUnit, fn: Fn, sub: Dict[str, Any], outparams:
             return
         adefs = [strip(d) for d in fn.defs.get(name, [])]
         if adefs and all(d.get('kind') == 'UnaryOperator' and d.get('opcode') == '&' and strip(d['inner'][0]).get('kind') in
-                         ('MemberExpr', 'DeclRefExpr') for d in adefs):
-            # a local that only ever holds the address of an existing lvalue (the expansion of Py_CLEAR / Py_SETREF)
+                         ('MemberExpr', 'DeclRefExpr', 'ArraySubscriptExpr') for d in adefs):
+            # a local that only ever holds the address of an existing lvalue (the expansion of Py_CLEAR / Py_SETREF; `&a[i]`, whose
+            # subscript is judged where the address is taken)
             rep.ok('C11.BOUNDS', construct, f'local pointer defined only as {[cu.src_of(d) for d in adefs][:2]}: the address of an lvalue', site)
             return
         # a local that holds the result of a unit-local locator function: every return of the locator is NULL or the address of an
@@ -438,13 +480,16 @@ def _judge_memrange(rep: Report, cu: CUnit, fn: Fn, c: Dict[str, Any]) -> None:
         rep.ok('C11.BOUNDS', construct, 'memset(x, 0, sizeof(x)) of a member array', site)
         return
     facts = {(op, lx.show(x), lx.show(y)) for op, x, y in fn.atomic_facts(c)}
-    if callee(c) == 'memset' and cu.src_of(a[0]) == 'm->flat + start':
-        ok = cu.src_of(a[2]) == '(size_t)(end_clamped - start) * sizeof(uint64_t)' and ('<', 'start', 'end_clamped') in facts
+    # destination / source / byte count read through locals that merely name them (`uint64_t* dst = m->flat + lo;`)
+    r0, r1, r2 = lx.show(fn.rd(a[0])), lx.show(fn.rd(a[1])), lx.show(fn.rd(a[2]))
+    construct = f'{fn.name}:{callee(c)}({r0.strip("()").replace(".", "->").replace("+", " + ")[:40]})'
+    if callee(c) == 'memset' and r0 == '(m.flat+start)':
+        ok = r2 in ('((end_clamped-start)*sizeof(uint64_t))', '(sizeof(uint64_t)*(end_clamped-start))') and ('<', 'start', 'end_clamped') in facts
         rep.check(ok, 'C11.BOUNDS', construct, 'range [start, end_clamped) with start < end_clamped <= low_max_end (C07.COPYIN clamp)', site)
         return
-    if callee(c) == 'memcpy' and cu.src_of(a[0]) == 'm->flat + lo':
-        ok = cu.src_of(a[1]) == 'm->slots[i].page->words + (lo - page_start)' and \
-            cu.src_of(a[2]) == '(size_t)(hi - lo) * sizeof(uint64_t)' and ('<', 'lo', 'hi') in facts
+    if callee(c) == 'memcpy' and r0 == '(m.flat+lo)':
+        ok = r1 == '(m.slots[i].page.words+(lo-page_start))' and \
+            r2 in ('((hi-lo)*sizeof(uint64_t))', '(sizeof(uint64_t)*(hi-lo))') and ('<', 'lo', 'hi') in facts
         rep.check(ok, 'C11.BOUNDS', construct, 'range [lo, hi) with page_start <= lo < hi <= min(page_end, low_max_end) (C07.COPYIN clamps)', site)
         return
     rep.fail('C11.BOUNDS', construct, 'unaudited mem* range', site)
@@ -472,11 +517,21 @@ def rule_overflow(rep: Report, cu: CUnit) -> None:
         rep.check(ok, 'C11.OVERFLOW', f'{fname}:wrap-test', f'`{test}` rejects before any use of the sum' if ok else
                   'wrap test missing or a use of the sum is not dominated by it', cu.site(cu.func(fname)))
     fn = Fn(cu, 'mem_decide_storage')
-    mal = [n for n in fn.g.nodes if isinstance(n.ast, dict) and n.kind == 'stmt' and 'malloc((size_t)low_max_end * sizeof(uint64_t))' in cu.src_of(n.ast)]
+    prod = ('(low_max_end*sizeof(uint64_t))', '(sizeof(uint64_t)*low_max_end)')
+    mal = [n for n in fn.g.nodes if isinstance(n.ast, dict) and n.kind in ('stmt', 'cond') and any(
+        c.get('kind') == 'CallExpr' and callee(c) == 'malloc' and lx.show(fn.rd(call_args(c)[0])) in prod for c in walk(n.ast))]
     ok = False
     if mal:
-        conds = {cu.src_of(fn.g.nodes[cid].ast) + ':' + pol for cid, pol in (fn.IN.get(mal[0].id) or frozenset())}
-        ok = 'low_max_end > SIZE_MAX / sizeof(uint64_t):F' in conds
+        # a dominating fact that reads `low_max_end <= SIZE_MAX / sizeof(uint64_t)`, however the test is turned
+        def bounds_it(ir: lx.IR, pol: str) -> bool:
+            if ir[0] != 'cmp' or len(ir[1]) != 1:
+                return False
+            op, (a_, b_) = ir[1][0], ir[2]
+            if lx.show(b_) == 'low_max_end':
+                a_, b_, op = b_, a_, {'<': '>', '>': '<', '<=': '>=', '>=': '<='}.get(op, op)
+            quot = b_[0] == 'bin' and b_[1] == '/' and b_[2] == ('num', (1 << 64) - 1) and b_[3] == ('other', 'sizeof(uint64_t)')
+            return lx.show(a_) == 'low_max_end' and quot and ((op == '>' and pol == 'F') or (op == '<=' and pol == 'T'))
+        ok = any(bounds_it(fn.rd(fn.g.nodes[cid].ast), pol) for cid, pol in (fn.IN.get(mal[0].id) or frozenset()))
     rep.check(ok, 'C11.OVERFLOW', 'mem_decide_storage:malloc-size', 'size test dominates the multiplication', cu.site(cu.func('mem_decide_storage')))
     others = []
     for name in cu.funcs:
@@ -485,9 +540,21 @@ def rule_overflow(rep: Report, cu: CUnit) -> None:
                 others.append(f'{name}: {cu.src_of(c)}')
     rep.check(not others, 'C11.OVERFLOW', 'other-malloc-products', f'{others}', cu.rel, expected='no other malloc(n * size)')
     # realloc product: capacity doubles from a Py_ssize_t count of 16-byte records; bounded by the number of add_segment calls
-    rl = [cu.src_of(c) for name in cu.funcs for c in walk(cu.body(name)) if c.get('kind') == 'CallExpr' and callee(c) == 'realloc']
-    rep.check(rl == ['realloc(self->segments, (size_t)new_capacity * sizeof(SegmentRange))'], 'C11.OVERFLOW', 'realloc', str(rl),
-              cu.rel, expected='one realloc, capacity doubling')
+    rl = []
+    for name in cu.funcs:
+        f_ = None
+        for c in walk(cu.body(name)):
+            if c.get('kind') == 'CallExpr' and callee(c) == 'realloc':
+                f_ = f_ or Fn(cu, name)
+                rl.append(f'realloc({lx.show(f_.rd(call_args(c)[0]))}, {lx.show(f_.rd(call_args(c)[1]))})')
+    rep.check(rl in (['realloc(self.segments, (new_capacity*sizeof(SegmentRange)))'], ['realloc(self.segments, (sizeof(SegmentRange)*new_capacity))']),
+              'C11.OVERFLOW', 'realloc', str(rl), cu.rel, expected='one realloc, capacity doubling')
+
+
+def strip_casts(n: Dict[str, Any]) -> Dict[str, Any]:
+    while n.get('kind') in ('ImplicitCastExpr', 'ParenExpr', 'CStyleCastExpr') and n.get('inner'):
+        n = [c for c in n['inner'] if isinstance(c, dict) and c.get('kind')][-1]
+    return n
 
 
 def _null_tests(v: Optional[str]) -> Set[str]:
@@ -500,13 +567,23 @@ def rule_alloc(rep: Report, cu: CUnit) -> None:
     rep.rule('C11.ALLOC', 'every malloc/calloc/realloc result is NULL-tested before use, the failure path sets a Python error '
              '(or takes the documented paged fallback), and realloc is assigned to a temporary', 7)
     n_sites = 0
+    # allocators: the three libc functions and every unit-local wrapper whose value is the result of one (`return calloc(n, 8);`):
+    # a call of a wrapper is an allocation site like any other
+    allocators: Set[str] = {'malloc', 'calloc', 'realloc'}
+    wrappers: Set[str] = set()
+    for _ in range(2):
+        for name in cu.funcs:
+            rets = [r for r in walk(cu.body(name)) if r.get('kind') == 'ReturnStmt' and r.get('inner')]
+            if rets and all(strip_casts(r['inner'][0]).get('kind') == 'CallExpr' and callee(strip_casts(r['inner'][0])) in allocators for r in rets):
+                wrappers.add(name)
+                allocators.add(name)
     for name in cu.funcs:
         fn = Fn(cu, name, {'with_ring': 1} if name == 'run_paged_loop_impl' else {})
         g = fn.g
         for node in g.nodes:
-            if node.kind != 'stmt' or not isinstance(node.ast, dict):
+            if node.kind not in ('stmt', 'cond') or not isinstance(node.ast, dict):
                 continue
-            cs = [c for c in walk(node.ast) if c.get('kind') == 'CallExpr' and callee(c) in ('malloc', 'calloc', 'realloc')]
+            cs = [c for c in walk(node.ast) if c.get('kind') == 'CallExpr' and callee(c) in allocators]
             if not cs:
                 continue
             n_sites += 1
@@ -517,12 +594,21 @@ def rule_alloc(rep: Report, cu: CUnit) -> None:
                     tgt = cu.src_of(x['inner'][0])
                 elif x.get('kind') == 'VarDecl' and x.get('inner'):
                     tgt = x['name']
-            nxt = [m for m, _ in g.succ[node.id]]
-            nn = g.nodes[nxt[0]] if nxt else None
-            while nn is not None and nn.kind == 'stmt' and isinstance(nn.ast, dict) and nn.ast.get('kind') == 'DeclStmt' \
-                    and not any(v.get('inner') for v in nn.ast.get('inner', [])):
-                nn = g.nodes[g.succ[nn.id][0][0]]       # declaration without initialiser
-            ok = nn is not None and nn.kind == 'cond' and cu.src_of(nn.ast).replace(' ', '') in _null_tests(tgt)
+            if node.kind == 'cond':
+                # `if ((p = alloc(..)) == NULL)` / `if (!(p = alloc(..)))`: the test is the statement itself; read it with the
+                # assignment replaced by its target
+                txt0 = cu.src_of(node.ast).replace(' ', '')
+                asg = [x for x in walk(node.ast) if is_assign(x) and any(c is y for c in cs for y in walk(x))]
+                reduced = txt0.replace('(' + cu.src_of(asg[0]).replace(' ', '') + ')', (tgt or '').replace(' ', '')) if asg else txt0
+                ok = reduced in _null_tests(tgt)
+                nn = node
+            else:
+                nxt = [m for m, _ in g.succ[node.id]]
+                nn = g.nodes[nxt[0]] if nxt else None
+                while nn is not None and nn.kind == 'stmt' and isinstance(nn.ast, dict) and nn.ast.get('kind') == 'DeclStmt' \
+                        and not any(v.get('inner') for v in nn.ast.get('inner', [])):
+                    nn = g.nodes[g.succ[nn.id][0][0]]       # declaration without initialiser
+                ok = nn is not None and nn.kind == 'cond' and cu.src_of(nn.ast).replace(' ', '') in _null_tests(tgt)
             handled = False
             if ok:
                 t = [m for m, lab in g.succ[nn.id] if lab == 'T'][0]
@@ -540,7 +626,7 @@ def rule_alloc(rep: Report, cu: CUnit) -> None:
                 handled = any('PyErr_NoMemory' in s for s in txt) or any('running paged' in s for s in txt)
             if callee(cs[0]) == 'realloc':
                 ok = ok and tgt != cu.src_of(call_args(cs[0])[0])
-            rep.check(ok and handled, 'C11.ALLOC', f'{name}:{callee(cs[0])}->{tgt}',
+            rep.check(ok and handled, 'C11.ALLOC', f'{name}:{"calloc" if callee(cs[0]) in wrappers else callee(cs[0])}->{tgt}',
                       f'NULL test next={ok}, failure handled={handled}', cu.site(node.ast, name),
                       expected='if (!p) { PyErr_NoMemory / documented fallback }')
     if n_sites < 7:
@@ -824,15 +910,25 @@ def rule_ownership(rep: Report, cu: CUnit) -> None:
                             bad.append(f'use after free at {cu.site(node.ast)}')
                         new = 'freed'
             if node.kind == 'return' and new == 'owned':
-                # `return PyErr_NoMemory()` right after a failed calloc holds no ring (NULL)
-                conds = [cu.src_of(g.nodes[p].ast) for p, lab in g.pred[nid] if g.nodes[p].kind == 'cond' and lab == 'T']
-                if not any(c.replace(' ', '') in _null_tests('last_ops_ring') for c in conds):
-                    bad.append(f'ring leaked at {cu.site(node.ast)}')
+                bad.append(f'ring leaked at {cu.site(node.ast)}')
+            # a NULL test of the ring (`!ring`, `ring == NULL`, also with the allocation embedded: `(ring = calloc(..)) == NULL`)
+            # leaves nothing owned on the edge where the pointer is NULL
+            null_edge = None
+            if node.kind == 'cond' and isinstance(node.ast, dict):
+                txt0 = cu.src_of(node.ast).replace(' ', '')
+                for x in walk(node.ast):
+                    if is_assign(x) and cu.src_of(x['inner'][0]) == 'last_ops_ring':
+                        txt0 = txt0.replace('(' + cu.src_of(x).replace(' ', '') + ')', 'last_ops_ring')
+                if txt0 in _null_tests('last_ops_ring'):
+                    null_edge = 'T'
+                elif txt0 in ('last_ops_ring', 'last_ops_ring!=NULL', 'NULL!=last_ops_ring', 'last_ops_ring!=0'):
+                    null_edge = 'F'
             for m, lab in g.succ[nid]:
+                out_st = 'none' if (new == 'owned' and null_edge is not None and lab == null_edge) else new
                 if m not in INr:
                     INr[m] = set()
-                if new not in INr[m]:
-                    INr[m].add(new)
+                if out_st not in INr[m]:
+                    INr[m].add(out_st)
                     work.append(m)
     rep.check(not bad, 'C11.OWNERSHIP', 'Memory_run:last_ops_ring', 'freed exactly once on every path' if not bad else str(bad[:3]),
               cu.site(cu.func('Memory_run')))
